@@ -131,6 +131,21 @@ Definition judge_glue (stream api : string) (st : list sexp) (robs : option resp
     | _, _, _, _ => v_bad "stages"
     end.
 
+(** the twin oracle of the promise-delivery cases: [(twin (async data n) (sync data n'))] — the same
+    resolver answers (value and error) handed over through a ResolvePromise and returned directly
+    must give the same data (compared as serialised text) and errors in exactly the same cases.
+    (The NUMBER of errors may legitimately depend on the order in which promises are fulfilled.) *)
+Definition twin_agrees (l : list sexp) : option bool :=
+  match field "twin" l with
+  | None => Some true
+  | Some tw =>
+      match field "async" tw, field "sync" tw with
+      | Some [SStr da; SZ na], Some [SStr ds; SZ ns] =>
+          Some (bytes_eqb da ds && Bool.eqb (Z.eqb na 0) (Z.eqb ns 0))
+      | _, _ => None
+      end
+  end.
+
 Definition check_glue (c : sexp) : sexp :=
   match tagged "case" c with
   | None => v_bad "shape"
@@ -147,6 +162,9 @@ Definition check_glue (c : sexp) : sexp :=
           | Some robs =>
               let bad := match robs with Some r => negb (data_or_errors r) | None => false end in
               if bad then v_oracle_fail "nodata-noerrors" []
+              else if match twin_agrees l with Some false => true | _ => false end
+              then v_oracle_fail "promise-delivery-changes-response" (match field "twin" l with Some tw => tw | None => [] end)
+              else if match twin_agrees l with None => true | _ => false end then v_bad "twin"
               else if match field1 "expect" l with Some x => is_sym "refused" x | None => false end
                       && match dec_count "parse" st with Some (Some (Returned O)) => true | _ => false end
               then (* generator intent: nested far beyond the parser's recursion limit *)
